@@ -108,3 +108,12 @@ m("c14-silent-failure-exit", "C14", 1, [("src/gm2calc.cpp",
 m("c14-different-diagnostic-text", "C14", 0, [("src/gm2calc.cpp",
    "      ERROR(\"Unrecognized command line option: \" << option_string);", "      ERROR(\"unknown option '\" << option_string << \"' (try --help)\");")],
   "different but legal diagnostic text: property holds")
+
+m("c14-uninitialised-svd-result", "C14", 1, [("src/gm2_linalg.hpp",
+   "    if (!m.allFinite()) {\n", "    if (false) {\n")],
+  "reverts fix 3428776: JacobiSVD results are used uninitialised for non-finite mass matrices (reachable from the CLI through overflowing but finite input values)")
+
+m("c14-uninitialised-scale", "C14", 1, [("src/gm2_slha_io.cpp",
+   "double GM2_slha_io::read_scale(const SLHAea::Block& block)\n{\n   double scale = 0.0;",
+   "double GM2_slha_io::read_scale(const SLHAea::Block& block)\n{\n   double scale;")],
+  "block scale left uninitialised when the block definition has no Q= entry")
